@@ -22,7 +22,7 @@ class C06(Check):
     ASSUMPTIONS = ['reference layout transcribed from the docstrings of sdss_objid / sdss_specobjid',
                    'out-of-range components inside a vN_M_P string are not asserted to raise (DESIGN C06 D)']
     QUICK_SHARDS = 4
-    REQUIRED_COUNTERS = ('run2d_mixed_form_string_arrays', 'repeat_calls_same_objects', 'rejections_observed', 'length_mismatch_one', 'length_mismatch_plus1', 'length_mismatch_minus1')
+    REQUIRED_COUNTERS = ('ids_in_batches_over_65535', 'unwrap_id_array_flavours', 'run2d_mixed_form_string_arrays', 'repeat_calls_same_objects', 'rejections_observed', 'length_mismatch_one', 'length_mismatch_plus1', 'length_mismatch_minus1')
 
     def setup(self):
         import pydl.pydlutils.sdss as S
@@ -46,6 +46,7 @@ class C06(Check):
             'spec_run2d_strings': 4 if q else 8,
             'spec_reject': 400 if q else 150000,
             'string_ids': 200 if q else 80000,
+            'big_batch': 6 if q else 60,
         }
 
     # ---------------------------------------------------------------- generators
@@ -105,6 +106,10 @@ class C06(Check):
             return {'kind': cls, 'vals': vals, 'mode': mode, 'bad': bad, 'badval': badval,
                     'conv': rng.choice(['pyint', 'array', 'array3']), 'pos': rng.randint(0, 2),
                     'lineform': rng.choice(['line', 'index'])}
+        if cls == 'big_batch':
+            # one call for very many IDs: sizes around the block sizes an implementation may process in (2**16 and neighbours)
+            return {'kind': cls, 'n': [65535, 65536, 65537, 70001, 131073, 98304][i % 6], 'seed': rng.getrandbits(32),
+                    'which': ['spec', 'obj'][(i // 6) % 2] if i >= 6 else ['spec', 'spec', 'spec', 'obj', 'spec', 'obj'][i]}
         if cls == 'string_ids':
             n = rng.randint(1, 12)
             which = rng.choice(['obj', 'spec'])
@@ -319,6 +324,13 @@ class C06(Check):
 
     def _check_unwrap_spec(self, out, ids, vals, n, what, run2d_integer=False, specLineIndex=False):
         un = self.S.unwrap_specobjid(ids, run2d_integer=run2d_integer, specLineIndex=specLineIndex)
+        if isinstance(ids, np.ndarray) and ids.dtype == np.uint64 and 1 <= ids.size <= 5000:
+            # the same IDs as a big-endian array (network-order data, FITS) and as a strided view
+            for flav, arr in (('>u8', ids.astype('>u8')), ('strided', np.repeat(ids, 2)[::2])):
+                un2 = self.S.unwrap_specobjid(arr, run2d_integer=run2d_integer, specLineIndex=specLineIndex)
+                same = all(np.array_equal(np.atleast_1d(un2[k]), np.atleast_1d(un[k])) for k in un.dtype.names)
+                out.expect(same, 'roundtrip', '%s: unwrap_specobjid of the same IDs given as %s differs' % (what, flav))
+                out.count('unwrap_id_array_flavours')
         for f in ('plate', 'fiber', 'mjd'):
             got = [int(x) for x in np.atleast_1d(un[f]).tolist()]
             out.expect(got == [int(x) for x in vals[f][:n]], 'roundtrip', '%s: unwrap_specobjid.%s' % (what, f),
@@ -437,6 +449,27 @@ class C06(Check):
         else:
             out.fail('rejects', 'out-of-range / inconsistent input returned a value instead of ValueError',
                      mode=case['mode'], bad=case['bad'], badval=case['badval'], returned=r)
+        out.nontrivial = True
+
+    def run_big_batch(self, case, out):
+        g = np.random.default_rng(case['seed'])
+        n = case['n']
+        if case['which'] == 'spec':
+            vals = {f: g.integers(R.SPEC_RANGE[f][0], R.SPEC_RANGE[f][1] + 1, n).tolist() for f in SPEC_FIELDS}
+            # values that change from element to element also next to every block boundary
+            res = self._spec_call(vals, 'int', 'line', 'int64', 'array')
+            exp = self._check_spec_result(out, res, vals, n, 'batch of %d' % n)
+            if exp is not None:
+                ids = np.array(exp, dtype=np.uint64)
+                self._check_unwrap_spec(out, ids, vals, n, 'batch of %d' % n, run2d_integer=False)
+                self._check_unwrap_spec(out, ids, vals, n, 'batch of %d' % n, run2d_integer=True, specLineIndex=True)
+        else:
+            vals = {f: g.integers(R.OBJ_RANGE[f][0], R.OBJ_RANGE[f][1] + 1, n).tolist() for f in OBJ_FIELDS}
+            res = self._objid_call(vals, 'int64', 'array', 'all')
+            exp = self._check_objid_result(out, res, vals, n, 'batch of %d' % n)
+            if exp is not None:
+                self._check_unwrap_objid(out, np.asarray(res), vals, n, 'batch of %d' % n)
+        out.count('ids_in_batches_over_65535', n)
         out.nontrivial = True
 
     def run_string_ids(self, case, out):
